@@ -436,7 +436,7 @@ def make_families(tier, seed):
         mc = np.full(n, -7, dtype=np.int64)
         tix = np.where(mT)[0].astype(np.int64)
         obs.lib(site, memthick.find_matches_parallel, np.ascontiguousarray(pts), np.ascontiguousarray(nrm), mS.copy(), mT.copy(), tix,
-                float(rng), float(np.cos(np.radians(alpha))), md, mi, mc)
+                float(rng), float(np.cos(np.radians(alpha))), md, mi, mc, _outputs=(7, 8, 9))  # the three result buffers
         obs.nontrivial = scene_nontrivial(pts, nrm, src, tgt, rng, alpha)
         out = []
         for s in range(n):
